@@ -98,6 +98,7 @@ def main():
           'checks_run': 'all 20 quick checks on a scratch copy of /repo with patch.diff applied (tools/record_seeds.py); '
                         'equivalent to git -C /repo apply <patch>; ./check Cnn; git -C /repo checkout -- .',
           'own_property_verdict': verdict,
+          'first_run': (json.load(open(os.path.join(dst, 'meta.json'))).get('first_run') if os.path.exists(os.path.join(dst, 'meta.json')) else verdict),
           'fired': fired,
       }
       json.dump(meta, open(os.path.join(dst, 'meta.json'), 'w'), indent=1, sort_keys=True)
